@@ -433,6 +433,12 @@ def r18_6(ctx: Ctx):
             if isinstance(x, ast.Attribute) and x.attr == "_hibernating" and isinstance(x.ctx, ast.Load):
                 n += 1
                 ok = f.qualname in allowed
+                # a read matters where it can keep a sleeping deme from being offered as a sprout parent (the only thing that
+                # wakes it): the sprouting machinery and the accessors it iterates; reporting / counting code may look at the flag
+                in_sprout_path = f.module.name.startswith("pyhms.sprout") or (f.cls is not None and f.cls.name == "DemeTree" and f.name in ("active_demes", "active_non_leaves", "all_demes", "levels", "leaves", "root", "_do_sprout")) or (f.cls is not None and f.name in ("is_active", "current_population", "best_current_individual"))
+                if not ok and not in_sprout_path:
+                    obs.append(ctx.ob("R18.6", f, x, detail=f"{f.short} looks at the flag outside the stepping / sprouting path (reporting or accounting only)"))
+                    continue
                 obs.append(ctx.ob("R18.6", f, x, status=OK if ok else VIOLATION, detail="flag read by the tree's stepping / flag round" if ok else f"{f.short} reads `_hibernating`: a sleeping deme is treated differently outside the stepping loop (e.g. no longer offered as a sprout parent, so nothing can wake it and the run can stall)"))
             if isinstance(x, ast.Call) and norm(x.func) == "getattr" and len(x.args) >= 2 and isinstance(x.args[1], ast.Constant) and x.args[1].value == "_hibernating":
                 obs.append(ctx.ob("R18.6", f, x, status=VIOLATION, detail=f"{f.short} reads the hibernation flag through getattr"))
